@@ -38,6 +38,8 @@ def pval(v) -> str:
         return f"(keyed {v[0]} {pval(v[1])})"       # extension: mux case selected by switch-key value
     if isinstance(v, DtcVal):
         return f"(dtc {v.code})"
+    if isinstance(v, tuple) and len(v) == 2 and v[0] is None and isinstance(v[1], dict):
+        return f"(nokey {pval(v[1])})"              # extension: default case of a mux selected by None
     if isinstance(v, (list, tuple)):
         return "(list" + "".join(" " + pval(x) for x in v) + ")"
     if type(v).__name__ == "DiagnosticTroubleCode":
